@@ -25,11 +25,12 @@ enum Kind
   K_SELF_ASSIGN,
   K_UNREGISTER,
   K_DESTROY,
+  K_RECREATE,
   K_COUNT
 };
 static const char* kKind[] = { "reg",       "reg_many",   "release",        "lookup_live",
                                "lookup_dead", "lookup_raw", "move_construct", "move_assign",
-                               "self_assign", "unregister", "destroy" };
+                               "self_assign", "unregister", "destroy", "recreate_sandbox" };
 
 static int g_objs[8192];
 
@@ -57,9 +58,9 @@ struct AppTokenWorld : World
     int n = (int)r.range(3, thorough ? 60 : 40);
     std::vector<unsigned> w;
     if (layer == 0)
-      w = { 30, 6, 18, 12, 8, 6, 0, 0, 0, 0, 0 };
+      w = { 30, 6, 18, 12, 8, 6, 0, 0, 0, 0, 0, 0 };
     else
-      w = { 22, 5, 0, 12, 8, 6, 8, 12, 3, 8, 10 };
+      w = { 22, 5, 0, 12, 8, 6, 8, 12, 3, 8, 10, 4 };
     // swarm: randomly mute some op kinds
     for (auto& x : w)
       if (x && r.chance(1, 6))
@@ -270,7 +271,9 @@ struct AppTokenWorld : World
         std::unique_ptr<Owner> o;
         uint64_t tok = 0; // model: 0 = holds nothing
         int* ptr = nullptr;
+        int inc = 0; // sandbox incarnation in which the token was issued (to_tainted() caches an address of that incarnation)
       };
+      int incarnation = 0;
       std::vector<Slot> slots;
       std::map<uint64_t, int*> model;
       std::vector<uint64_t> released;
@@ -335,6 +338,7 @@ struct AppTokenWorld : World
         }
         s.tok = tok;
         s.ptr = ptr;
+        s.inc = incarnation;
         model[tok] = ptr;
         slots.push_back(std::move(s));
         return true;
@@ -377,8 +381,13 @@ struct AppTokenWorld : World
               break;
             Slot& s = slots[lv[(uint64_t)op.a[0] % lv.size()]];
             int* got = nullptr;
-            auto t = s.o->to_tainted();
-            Outcome o = attempt([&] { got = sb.lookup_app_ptr(t); });
+            Outcome o;
+            if (s.inc == incarnation) {
+              auto t = s.o->to_tainted();
+              o = attempt([&] { got = sb.lookup_app_ptr(t); });
+            } else {
+              o = raw_lookup(s.tok, got); // the owner's cached address belongs to the memory of an earlier incarnation
+            }
             if (o != OK || got != s.ptr)
               c.violate("C15", "live_token_wrong_pointer@lookup_live", "token=%llu outcome=%s", (unsigned long long)s.tok, oname(o));
             break;
@@ -414,6 +423,7 @@ struct AppTokenWorld : World
             n.o = std::make_unique<Owner>(std::move(*slots[si].o));
             n.tok = slots[si].tok;
             n.ptr = slots[si].ptr;
+            n.inc = slots[si].inc;
             slots[si].tok = 0;
             slots[si].ptr = nullptr;
             c.probe("owner_moved");
@@ -436,6 +446,7 @@ struct AppTokenWorld : World
             release_model(slots[di]); // overwriting an owner releases what it held
             slots[di].tok = slots[si].tok;
             slots[di].ptr = slots[si].ptr;
+            slots[di].inc = slots[si].inc;
             slots[si].tok = 0;
             slots[si].ptr = nullptr;
             if (!slots[si].o->is_unregistered())
@@ -473,6 +484,23 @@ struct AppTokenWorld : World
             release_model(s);
             break;
           }
+          case K_RECREATE: {
+            // tokens belong to their owners, not to an incarnation of the sandbox: destroy + create leaves them all valid
+            Outcome o = attempt([&] {
+              sb.destroy_sandbox();
+              if constexpr (is_sim) {
+                sb.create_sandbox(0);
+                base = (uintptr_t)sb.get_sandbox_impl()->mem.base;
+              } else {
+                sb.create_sandbox();
+              }
+            });
+            incarnation++;
+            c.probe("sandbox_recreated_with_live_token_owners");
+            if (o != OK)
+              c.violate("C15", "recreate_fails@recreate_sandbox", "%s", g_last_abort_msg.c_str());
+            break;
+          }
           default:
             break;
         }
@@ -491,8 +519,13 @@ struct AppTokenWorld : World
           if (s.tok && checked < 24) {
             checked++;
             int* got = nullptr;
-            auto t = s.o->to_tainted();
-            Outcome o = attempt([&] { got = sb.lookup_app_ptr(t); });
+            Outcome o;
+            if (s.inc == incarnation) {
+              auto t = s.o->to_tainted();
+              o = attempt([&] { got = sb.lookup_app_ptr(t); });
+            } else {
+              o = raw_lookup(s.tok, got);
+            }
             if (o != OK || got != s.ptr || (uint64_t)(uintptr_t)s.o->UNSAFE_sandboxed(sb) != s.tok) {
               c.violate("C15", std::string("live_token_wrong_pointer@") + opn, "token=%llu outcome=%s", (unsigned long long)s.tok, oname(o));
               break;
